@@ -297,6 +297,13 @@ func (p *uPacketPacker) appendInitialPacketPayload(buffer *packetBuffer, header 
 		if minUDPSize == 0 {
 			minUDPSize = DefaultUDPDatagramMinSize
 		}
+		// [UQUIC] The padding goes into the pooled packet buffer. A UDPDatagramMinSize above its
+		// capacity would make append() move buffer.Data to a new, larger array, and the send queue's
+		// buffer.Release() then panics ("putPacketBuffer called with packet of wrong size!"). Pad to
+		// the buffer's capacity at most.
+		if minUDPSize > cap(buffer.Data) {
+			minUDPSize = cap(buffer.Data)
+		}
 		if len(buffer.Data) < minUDPSize {
 			buffer.Data = append(buffer.Data, make([]byte, minUDPSize-len(buffer.Data))...)
 		}
